@@ -290,7 +290,10 @@ func (f *FibStrategyHashTable) InsertNextHopEnc(name enc.Name, nexthop uint64, c
 	f.fibStrategyRWMutex.Lock()
 	defer f.fibStrategyRWMutex.Unlock()
 	verifMutating(&f.fibStrategyRWMutex, "fib.mut")
+	f.insertNextHopEnc(name, nexthop, cost)
+}
 
+func (f *FibStrategyHashTable) insertNextHopEnc(name enc.Name, nexthop uint64, cost uint64) {
 	realEntry := f.insertEntryEnc(name)
 
 	for _, existingNextHop := range realEntry.nexthops {
@@ -315,12 +318,32 @@ func (f *FibStrategyHashTable) ClearNextHopsEnc(name enc.Name) {
 	f.fibStrategyRWMutex.Lock()
 	defer f.fibStrategyRWMutex.Unlock()
 	verifMutating(&f.fibStrategyRWMutex, "fib.mut")
+	f.clearNextHopsEnc(name)
+}
 
+func (f *FibStrategyHashTable) clearNextHopsEnc(name enc.Name) {
 	entry, ok := f.realTable[name.Hash()]
 	if ok {
 		entry.nexthops = make([]*FibNextHopEntry, 0)
 		f.pruneTables(entry)
 	}
+}
+
+// UpdateBatch applies several next-hop changes atomically with respect to lookups.
+func (f *FibStrategyHashTable) UpdateBatch(fn func(b FibBatch)) {
+	f.fibStrategyRWMutex.Lock()
+	defer f.fibStrategyRWMutex.Unlock()
+	fn(fibHashTableBatch{f})
+}
+
+type fibHashTableBatch struct{ f *FibStrategyHashTable }
+
+func (b fibHashTableBatch) InsertNextHopEnc(name enc.Name, nexthop uint64, cost uint64) {
+	b.f.insertNextHopEnc(name, nexthop, cost)
+}
+
+func (b fibHashTableBatch) ClearNextHopsEnc(name enc.Name) {
+	b.f.clearNextHopsEnc(name)
 }
 
 // RemoveNextHop removes the specified nexthop entry from the specified prefix
